@@ -3,10 +3,12 @@
 // type, to a FIXPOINT: the value alphabet is finite, so the set of reachable concrete states
 // (object bytes + heap contents, addresses abstracted to ownership facts) is finite.
 #define VF_MAIN_TU
+#include "early.h"
 #include "verif.h"
 #include "alloc.h"
 #include "histx.h"
 #include "st_charbuffer.h"
+#include "early_battery.h"
 
 using hx::Fail;
 using hx::Fails;
@@ -770,6 +772,68 @@ struct HugeSys {
     }
 };
 
+// ---------------------------------------------------------------------------------------------- language-level guarantees
+// (a) constexpr default constructor: a namespace-scope buffer is constant-initialised, so a value given to it by an earlier
+//     global's constructor survives until main() (early.h / early_battery.h);
+// (b) assignment operators return the object assigned to: what is done with the result of (a = b) is done to a.
+template <class T>
+struct LangSys {
+    typedef ST::buffer<T> B;
+    std::string nm;
+    uint64_t n_checks = 0;
+    LangSys() { nm = strf("buffer<%s>: constant initialisation of globals, identity of assignment results", TypeName<T>::get()); }
+    const char *name() const { return nm.c_str(); }
+    size_t op_count() const { return 0; }
+    bool enabled(size_t) const { return false; }
+    std::string op_name(size_t) const { return ""; }
+    void reset() {}
+    void apply(size_t, bool, hx::Fails &) {}
+    std::string key() const { return "lang"; }
+    bool nontrivial() const { return true; }
+    void on_new_state(hx::Fails &f)
+    {
+        const char *tn = TypeName<T>::get();
+        std::string gp = vf_early::globals_problem();
+        ++n_checks;
+        if (!gp.empty() && sizeof(T) == 1)
+            f.push_back(hx::Fail{"c05:global:constexpr-default-constructor-runs-at-start-up:" + gp,
+                                 "a namespace-scope " + gp + " given a value by an earlier global's constructor is empty in main()"});
+        static const size_t LL = B::local_length;
+        for (size_t n1 : {size_t(2), LL + 4})
+            for (size_t n2 : {size_t(3), LL + 9}) {
+                std::basic_string<T> v1(n1, T('a')), v2(n2, T('b')), v3(LL + 2, T('c'));
+                vf::Outcome oc = vf::guard([&] {
+                    B a(v1.data(), v1.size()), b(v2.data(), v2.size()), c(v3.data(), v3.size());
+                    auto &&r1 = (a = b);
+                    ++n_checks;
+                    if ((const void *)&r1 != (const void *)&a)
+                        f.push_back(hx::Fail{strf("c05:%s:copy-assign:result-is-not-the-target", tn), "(a = b) does not denote a"});
+                    (a = b) = c;
+                    ++n_checks;
+                    if (a.size() != v3.size() || a.data()[0] != T('c'))
+                        f.push_back(hx::Fail{strf("c05:%s:copy-assign:chained-assignment-lost", tn), "(a = b) = c leaves a without c's value"});
+                    B a2(v1.data(), v1.size()), b2(v2.data(), v2.size());
+                    auto &&r2 = (a2 = std::move(b2));
+                    ++n_checks;
+                    if ((const void *)&r2 != (const void *)&a2)
+                        f.push_back(hx::Fail{strf("c05:%s:move-assign:result-is-not-the-target", tn), "(a = std::move(b)) does not denote a"});
+                    B a3(v1.data(), v1.size()), b3(v2.data(), v2.size());
+                    (a3 = std::move(b3)) = c;
+                    ++n_checks;
+                    if (a3.size() != v3.size() || a3.data()[0] != T('c'))
+                        f.push_back(hx::Fail{strf("c05:%s:move-assign:chained-assignment-lost", tn), "(a = std::move(b)) = c leaves a without c's value"});
+                    (a3 = std::move(a2)).clear();
+                    ++n_checks;
+                    if (a3.size() != 0) f.push_back(hx::Fail{strf("c05:%s:move-assign:chained-call-lost", tn), "(a = std::move(b)).clear() leaves a non-empty"});
+                });
+                if (!oc.ok()) f.push_back(hx::Fail{strf("c05:%s:assignment-results:%s", tn, vf::outkind_name(oc.kind)), oc.str()});
+            }
+        hx::note_phase("reads");
+    }
+    void samples(std::vector<std::string> &out) const { out.push_back(strf("%s: %llu checks", nm.c_str(), (unsigned long long)n_checks)); }
+    void counters(std::map<std::string, uint64_t> &c) const { c["language-level-checks"] += n_checks; }
+};
+
 template <class T>
 static void add(std::vector<hx::Job> &jobs, int nslots, hx::Limits lim, bool reduced = false)
 {
@@ -799,6 +863,10 @@ static void build(std::vector<hx::Job> &jobs, const vf::Opts &o, std::string &ru
         jobs.push_back(hx::make_job<HugeSys<char16_t>>([T]() { return new HugeSys<char16_t>(T); }, l1));
         jobs.push_back(hx::make_job<HugeSys<wchar_t>>([T]() { return new HugeSys<wchar_t>(T); }, l1));
         jobs.push_back(hx::make_job<HugeSys<char32_t>>([T]() { return new HugeSys<char32_t>(T); }, l1));
+        jobs.push_back(hx::make_job<LangSys<char>>([]() { return new LangSys<char>(); }, l1));
+        jobs.push_back(hx::make_job<LangSys<char16_t>>([]() { return new LangSys<char16_t>(); }, l1));
+        jobs.push_back(hx::make_job<LangSys<wchar_t>>([]() { return new LangSys<wchar_t>(); }, l1));
+        jobs.push_back(hx::make_job<LangSys<char32_t>>([]() { return new LangSys<char32_t>(); }, l1));
     }
     if (o.thorough()) {
         // three objects (chains a -> b -> c, three-way aliasing) over a reduced value alphabet {1, limit}
